@@ -366,7 +366,7 @@ func VariedGrammars(seed int64, want int, conflicting bool) []*SynGrammar {
 	rng := rand.New(rand.NewSource(seed*15485863 + 3))
 	bases := SynCorpus
 	if conflicting {
-		bases = ConflictCorpus
+		bases = ConflictCorpus[:5] // the sampled variations keep their five bases (G26 was added later)
 	}
 	var out []*SynGrammar
 	for id := 0; len(out) < want && id < 2000; id++ {
